@@ -70,6 +70,13 @@ PROPERTIES = {
             "compared with the expected guard per caller by C09_singleton_callers_modelled: `mUsedByGroup` for "
             "internAddArgument / addBracketHandler); that mUsedByGroup is set from hfInGroup in both constructors and "
             "never written afterwards, and that only Groups passes hfInGroup, is read by hand",
+            "what else of process-wide state a call can name is the regenerated per-call table entryFootprints (call "
+            "closure BY SIMPLE FUNCTION NAME of the entry point of each of the nine Api calls, cut at the other entry "
+            "points, at Singleton<T> members and at functions outside the repository), part of the derived thread "
+            "programs and checked by C09_call_footprints_modelled; hand-written and assumed: the own-object cells per "
+            "call and Api.prints (no hfVerboseArgs, no evalArgumentsErrorExit); not seen by a name-based graph: function "
+            "pointers / objects handed in by the application, hidden state in libstdc++/Boost beyond a fixed list of "
+            "non-re-entrant functions, mutable/const_cast",
             "Singleton<Groups> (singleton.hpp class-statics) is reached only through Groups::instance(): handlers "
             "created with hfInGroup, usage()/--list-arg-groups, evalArgumentString without handler, "
             "addStandardArgument.  A plain handler whose own command line contains -h / --help / --list-arg-groups "
@@ -94,36 +101,175 @@ RULE = ("one case = one workload of 2..16 threads (own handler, own destinations
         "count, multiset of per-thread outcome classes) for run lines and distinct (kind, option set) for arg lines")
 
 SEPS = ",;:.+%#@^~!"
+NOTE_FILES = ("handler_mt_retry.notes",)
+
+# --------------------------------------------------------------------------- machine load must not become a VIOLATION
+# (coordinator report 2026-09-30: a 240 s kill switch turned a slow TSan batch on a loaded machine into
+#  `VIOLATION property=C09 replay=...`, kind=crash.)  Wall-clock limits of this component are no-progress limits that
+#  grow with the load, a run killed for not answering is repeated once alone with a much longer limit, and a run that
+#  passes on the retry leaves a note that ends up in the evidence (`coverage.rule`, which check.py reads from the
+#  plugin after the runs: there is no other hook for notes).
+
+_WORK = [None]
+_NOTES_SEEN = set()
+
+
+def _load_factor():
+    try:
+        return max(1.0, os.getloadavg()[0] / max(1, os.cpu_count() or 1))
+    except Exception:
+        return 1.0
+
+
+def _relax_batch_limit():
+    """vlib.Pair kills a whole harness batch after its `timeout` (default 900 s) and check.py reports the missing
+    lines as a crash of the property.  The harness side of this component has its own no-progress watchdogs, so the
+    batch limit only has to stop a wrapper that is itself stuck: raise the default for this check process, scaled by
+    the load.  (Work-around in the plugin; the clean change would be in vlib: a batch time-out is a broken tie, not
+    a failing input.)"""
+    try:
+        d = vlib.Pair.__init__.__defaults__
+        want = int(min(8 * 3600, 3600 * _load_factor()))
+        if d and isinstance(d[-1], int) and d[-1] < want:
+            vlib.Pair.__init__.__defaults__ = d[:-1] + (want,)
+    except Exception:
+        pass
+
+
+def _pickup_retry_notes():
+    """notes written by the harness side into the work directory -> RULE (evidence: coverage.rule) and the log"""
+    global RULE
+    w = _WORK[0]
+    if not w:
+        return
+    for name in NOTE_FILES:
+        path = os.path.join(w, name)
+        try:
+            with open(path) as f:
+                notes = [l.strip() for l in f if l.strip()]
+        except OSError:
+            continue
+        for n in notes:
+            if n in _NOTES_SEEN:
+                continue
+            _NOTES_SEEN.add(n)
+            vlib.log("note (not a failure): " + n)
+            if isinstance(RULE, dict):
+                for k in RULE:
+                    RULE[k] = RULE[k] + " NOTE (load, not a failure): " + n
+            else:
+                RULE = RULE + " NOTE (load, not a failure): " + n
+
 
 
 # --------------------------------------------------------------------------- harness build
 
 WRAPPER = r'''#!/usr/bin/env python3
 # runs the ASan and the TSan build of harness/handler_mt.cpp on the same input and merges their lines
-import os, re, subprocess, sys, threading
+import os, re, subprocess, sys, threading, time
 here = os.path.dirname(os.path.abspath(__file__))
 data = sys.stdin.buffer.read()
 res = {}
-LIMIT = 240      # seconds per build and batch; a sanitizer run time that dead locks in its own SEGV handler must not stall the check
-def run(tag):
+# A sanitizer run time that dead locks in its own SEGV handler must not stall the check, so a build that does not
+# answer is killed.  "Does not answer" = no new answer line for LIMIT seconds (the harness flushes after every line);
+# the total run time of a batch is NOT limited here: a loaded machine makes a batch slow, not wrong.  LIMIT grows with
+# the machine load.  A build killed that way is run again ALONE (nothing else of this wrapper running) from the start
+# of the case it stopped in, with a much longer limit; only a hang that shows again is a failure.
+def load_factor():
     try:
-        p = subprocess.run([os.path.join(here, "handler_mt_" + tag)], input=data, stdout=subprocess.PIPE, stderr=subprocess.PIPE,
-                           timeout=LIMIT)
-        rc, so, se = p.returncode, p.stdout, p.stderr
-    except subprocess.TimeoutExpired as e:
-        rc, so, se = 97, e.stdout or b"", (e.stderr or b"") + ("\n== %s build: no answer within %d s (hang), killed\n" % (tag, LIMIT)).encode()
-    out = so.decode("utf-8", "replace")
-    lines = out.split("\n")
-    if lines and lines[-1] == "":
-        lines.pop()
-    elif lines:
-        lines.pop()          # an incomplete last line of a killed process
-    res[tag] = (rc, lines, se.decode("utf-8", "replace"))
+        return max(1.0, os.getloadavg()[0] / max(1, os.cpu_count() or 1))
+    except Exception:
+        return 1.0
+LIMIT = int(min(1800, float(os.environ.get("HANDLER_MT_LIMIT", "240")) * load_factor()))
+RETRY_LIMIT = int(min(3600, float(os.environ.get("HANDLER_MT_RETRY_LIMIT", "900")) * load_factor()))
+NOTE = os.path.join(here, "handler_mt_retry.notes")
+
+def significant(raw):
+    # the input lines the harness answers (vh::run skips empty lines and comments)
+    out = []
+    for l in raw.split(b"\n"):
+        t = l.lstrip(b" \t\r")
+        if t and not t.startswith(b"#"):
+            out.append(l)
+    return out
+
+def die_with_parent():
+    # a harness must not outlive this wrapper (an orphaned TSan build spinning in its SEGV handler was found burning a
+    # CPU for hours after its check had been killed): SIGKILL when the creating thread of the wrapper goes away
+    try:
+        import ctypes
+        ctypes.CDLL("libc.so.6", use_errno=True).prctl(1, 9)      # PR_SET_PDEATHSIG, SIGKILL
+    except Exception:
+        pass
+
+def run_once(tag, inp, limit):
+    # -> (returncode or None when killed, complete answer lines, stderr text, seconds)
+    t0 = time.time()
+    p = subprocess.Popen([os.path.join(here, "handler_mt_" + tag)], stdin=subprocess.PIPE, stdout=subprocess.PIPE,
+                         stderr=subprocess.PIPE, preexec_fn=die_with_parent)
+    lines, err, last = [], [], [time.time()]
+    def rd_out():
+        for raw in p.stdout:
+            if raw.endswith(b"\n"):          # an incomplete last line of a killed process is dropped
+                lines.append(raw[:-1].decode("utf-8", "replace"))
+                last[0] = time.time()
+    def rd_err():
+        err.append(p.stderr.read())
+    def wr():
+        try:
+            p.stdin.write(inp)
+            p.stdin.close()
+        except (BrokenPipeError, OSError):
+            pass
+    ths = [threading.Thread(target=f, daemon=True) for f in (rd_out, rd_err, wr)]
+    [t.start() for t in ths]
+    killed = False
+    while p.poll() is None:
+        time.sleep(0.2)
+        if time.time() - last[0] > limit:
+            killed = True
+            p.kill()
+            break
+    p.wait()
+    [t.join(10) for t in ths]
+    return (None if killed else p.returncode), lines, b"".join(err).decode("utf-8", "replace"), time.time() - t0
+
+def run(tag):
+    res[tag] = run_once(tag, data, LIMIT)
+
 ts = [threading.Thread(target=run, args=(t,)) for t in ("asan", "tsan")]
 [t.start() for t in ts]
 [t.join() for t in ts]
-arc, a, aerr = res["asan"]
-trc, t, terr = res["tsan"]
+
+sig = significant(data)
+for tag in ("asan", "tsan"):
+    rc, lines, err, secs = res[tag]
+    if rc is not None:
+        continue
+    # killed for not answering: once more, alone, from the start of the case of the unanswered line
+    k = min(len(lines), len(sig) - 1) if sig else 0
+    c = k
+    while c > 0 and not sig[c].lstrip().startswith(b"case "):
+        c -= 1
+    op = sig[k].decode("utf-8", "replace") if sig else ""
+    rc2, lines2, err2, secs2 = run_once(tag, b"".join(l + b"\n" for l in sig[c:]), RETRY_LIMIT)
+    if rc2 is None:
+        k2 = c + len(lines2)
+        op2 = sig[min(k2, len(sig) - 1)].decode("utf-8", "replace")
+        res[tag] = (97, lines[:c] + lines2, err + err2 + (
+            "\n== %s build: no answer to `%s` within %d s, killed; run again alone: no answer to `%s` within %d s "
+            "(hang reproduced twice; load factor %.1f)\n" % (tag, op, LIMIT, op2, RETRY_LIMIT, load_factor())), secs + secs2)
+    else:
+        res[tag] = (rc2, lines[:c] + lines2, err + err2, secs + secs2)
+        try:
+            with open(NOTE, "a") as f:
+                f.write("%s build: one run (`%s`) gave no answer within %d s (load factor %.1f) and was killed; run again "
+                        "alone from the start of its case it answered everything (%d lines in %.0f s, exit=%s)\n"
+                        % (tag, op, LIMIT, load_factor(), len(lines2), secs2, rc2))
+        except OSError:
+            pass
+arc, a, aerr, _ = res["asan"]
+trc, t, terr, _ = res["tsan"]
 summ = sorted(set(re.sub(r"\(/[^)]*\) ", "", l.strip()) for l in terr.split("\n") if l.startswith("SUMMARY: ThreadSanitizer")))
 summ_txt = (" [" + " ;; ".join(s.replace("SUMMARY: ThreadSanitizer: ", "") for s in summ[:3]) + "]") if summ else ""
 if trc == 66 and not any(l.startswith("!! tsan") or (l.startswith("!!") and "tsan_reports" in l) for l in t):
@@ -162,6 +308,8 @@ sys.exit(rc)
 
 
 def build_harness(work, prop):
+    _WORK[0] = work
+    _relax_batch_limit()
     srcs = shared_state.impl_sources(vlib.REPO)       # exactly the translation units of the inventory's reach
     logs = []
 
@@ -186,6 +334,7 @@ def build_harness(work, prop):
 # --------------------------------------------------------------------------- judging
 
 def judge(prop, case, impl, model):
+    _pickup_retry_notes()
     probs = []
     ops = ["case " + case.cid] + case.lines
     for i, op in enumerate(ops):
